@@ -19,7 +19,7 @@ use crate::{
     eng::{ext_of, RngSpec},
     gen::{chacha, mask_of, mix, rand_scalar, BITS},
     mutate::{pick, UNDECODABLE},
-    refimpl::{vec_gens, Grp, Proof},
+    refimpl::{vec_gens, Proof},
     runner::{guarded, hash_of, no_fixed, sub, CaseLog, PropertyDef, RunCtx, Tier},
 };
 
@@ -405,14 +405,6 @@ pub fn cold_oracle(_ctx: &RunCtx, spec: &ColdSpec, log: &mut CaseLog) -> Result<
                 t, spec.threads, what
             ));
         }
-        let ext = spec.order[t % spec.order.len()].clamp(1, 6) as usize;
-        let (rh, rg) = <RistrettoPoint as Grp>::pedersen(ext);
-        let mut refs = vec![hexs(&rh.enc())];
-        refs.extend(rg.iter().map(|p| hexs(&p.enc())));
-        refs.extend(rg.iter().map(|p| hexs(&p.enc())));
-        if th.0 != refs {
-            return Err(format!("thread {} of a cold process obtained generators that differ from the documented derivation", t));
-        }
         if !th.3 {
             return Err("proof made in a cold racing process does not verify".into());
         }
@@ -437,7 +429,7 @@ pub fn def() -> PropertyDef {
                threads are released by a barrier with generated spin delays and every op's digest (proof bytes, Ok + masks or Err, generator \
                bytes) must equal the stand-alone digest. (2) cold child processes: 2-16 threads race the FIRST use of the lazily initialised \
                generator statics with a generated order of degrees, construct parameters, prove and verify; results must equal a warm \
-               single-threaded run and the reference derivation. (3) thorough tier: the minimal racing program under miri with seeded schedules \
+               single-threaded run. (3) thorough tier: the minimal racing program under miri with seeded schedules \
                (data races / UB). Non-trivial = >= 2 threads or a repeated op; distinct by (threads, distinct ops, total ops, delay seed)."
             .into(),
         assumptions: vec![
